@@ -14,7 +14,7 @@ from ref import addr as A
 from ref import secp256k1 as EC
 from ref import txref as T
 from sim.core import Counters, EventLog, HarnessError, RunResult, Violation, _where_ok, import_bits, load_known_findings, sub_rng
-from sim.nodesim import Ledger, SimNode
+from sim.nodesim import Ledger, SimNode, VirtualTime
 from sim.rngsim import EntropyHang, EntropySeam, SimEntropy
 
 PROPERTY = "C16"
@@ -272,6 +272,9 @@ def plan(seed, tier="quick", index=0):
                 "order": "insertion" if clean else rng.choice(["insertion", "reversed", "shuffled"]),
                 "rpc_fault": rng.choice(["refused", "401", "500-warmup", "500-scan-in-progress", "scan-unsuccessful", None]) if stratum == "rpc-faults" else None,
                 "entropy": rng.choice([[], [], [], ["ONE"], ["BOUND-1"], ["ZERO", "ONE"]]),
+                "amount_format": "fixed8" if clean or rng.random() < 0.75 else "trimmed",
+                "latency": 0.05 if clean else rng.choice([0.01, 0.05, 0.3, 0.3, 2.0, 7.5, 31.0]),
+                "gap_before": 0.0 if clean else rng.choice([0.0, 0.2, 3.0, 12.0, 45.0, 400.0]),
             }
         )
     sc = {"property": PROPERTY, "seed": seed, "stratum": stratum, "net": net, "idents": idents, "funding": funding, "sends": sends}
@@ -334,6 +337,9 @@ def execute(scenario, tape=None, keep_events=False):
     saved = (rpc.urlopen, rpc.time)
     rpc.urlopen = node.urlopen
     rpc.time = _Clock()
+    vtime = VirtualTime()
+    node.vtime = vtime
+    vtime.__enter__()
     spent_fees = 0
     clear_sends = 0
     try:
@@ -424,6 +430,11 @@ def execute(scenario, tape=None, keep_events=False):
                     log.add(si, "driver", "skip", "nothing to send")
                     probes.hit("send-skipped-insufficient-funds")
                     continue
+                node.amount_format = s.get("amount_format", "fixed8")
+                node.latency = s.get("latency", 0.05)
+                vtime.advance(s.get("gap_before", 0.0))
+                if s.get("amount_format") == "trimmed":
+                    faults.hit("node-prints-trimmed-amounts")
                 if pre is None:
                     node.order_mode = s["order"]
                     node.fault_plan = [s["rpc_fault"]] if s["rpc_fault"] else []
@@ -576,6 +587,7 @@ def execute(scenario, tape=None, keep_events=False):
                 if ledger.total() + spent_fees != ledger.initial_total:
                     bad("ledger-conservation", where, f"ledger {ledger.total()} + fees {spent_fees} != initial {ledger.initial_total}")
     finally:
+        vtime.__exit__()
         rpc.urlopen, rpc.time = saved
     seen = set()
     for v in viols:
@@ -659,8 +671,8 @@ def shrink_candidates(scenario, tape):
         sc["funding"].pop(i)
         yield sc, tape
     for i, s in enumerate(sends):
-        for key, val in (("change", None), ("flag", 1), ("version", 1), ("locktime", 0), ("order", "insertion"), ("entropy", []), ("fraction", 1.0), ("fee", 1000)):
-            if s[key] != val:
+        for key, val in (("change", None), ("flag", 1), ("version", 1), ("locktime", 0), ("order", "insertion"), ("entropy", []), ("fraction", 1.0), ("fee", 1000), ("amount_format", "fixed8"), ("latency", 0.05), ("gap_before", 0.0)):
+            if s.get(key, val) != val:
                 sc = copy.deepcopy(scenario)
                 sc["sends"][i][key] = val
                 yield sc, tape
